@@ -13,6 +13,7 @@ mod c15;
 mod c16;
 mod cluster;
 mod c17;
+mod c18;
 mod c20;
 mod transports;
 mod selftest;
@@ -23,7 +24,7 @@ fn main() {
         eprintln!("usage: nunverif <property|selftest> <quick|thorough> [args]");
         std::process::exit(64);
     }
-    if !["load-probe", "C12-child", "crash-child", "c16-child", "c16-load"].contains(&args[1].as_str()) {
+    if !["load-probe", "C12-child", "crash-child", "c16-child", "c16-load", "c18-child"].contains(&args[1].as_str()) {
         common::init_default_dir();
     }
     let tier = args.get(2).map(|s| s.as_str()).unwrap_or("quick");
@@ -53,6 +54,8 @@ fn run(args: &[String], tier: &str) -> i32 {
         "c16-child" => c16::child(args),
         "c16-load" => c16::load_child(args),
         "C17" => c17::run(tier),
+        "C18" => c18::run(tier),
+        "c18-child" => c18::child(args),
         "C20" => c20::run(tier),
         "load-probe" => c06::load_probe_child(&args[3]),
         other => {
